@@ -94,8 +94,8 @@ type quant struct {
 }
 
 func master(cfg *harness.Config, rep *harness.Report) {
-	rep.Rule = "all write histories up to the depth (insert 1-3 vectors incl. duplicates and vectorless points, move, remove/add the field, delete, re-insert with node-id reuse), from the empty shard and from 30 lattice points, x metric {euclidean, dot, cosine, haversine, hamming} x quantiser {none, binary fixed, binary learned(trigger 3)}; after every batch 4 queries x limit {1,3,75} x searchSize {25,75} x weight {nil,0.5,-1} x pre-filter {none, empty, one point, all, mixed live/vectorless/absent ids, string filter}: only live in-filter points with the field, no duplicate, never the entry node, <= limit, sorted, distance = index distance, hybrid = -weight*distance; exact k-NN for insert-only histories with <= min(degreeBound, searchSize-1) vectors and for filters with <= searchSize members. Histories are not merged (the warm graph cache is state outside the buckets)"
-	rep.Assumptions = []string{"the entry vector is random (math/rand/v2): oracles are independent of graph shape", "product quantiser not covered", "runtime.NumCPU()-1 = 1 insert worker (CPU affinity 2)"}
+	rep.Rule = "all write histories up to the depth (insert 1-3 vectors incl. duplicates and vectorless points, move, remove/add the field, delete, re-insert with node-id reuse), from the empty shard and from 30 lattice points, x metric {euclidean, dot, cosine, haversine, hamming} x quantiser {none, binary fixed, binary learned(trigger 3), product (2x2, trigger 3)}; after every batch 4 queries x limit {1,3,75} x searchSize {25,75} x weight {nil,0.5,-1} x pre-filter {none, empty, one point, all, mixed live/vectorless/absent ids, string filter}: only live in-filter points with the field, no duplicate, never the entry node, <= limit, sorted, distance = index distance, hybrid = -weight*distance; exact k-NN for insert-only histories with <= min(degreeBound, searchSize-1) vectors and for filters with <= searchSize members. Histories are not merged (the warm graph cache is state outside the buckets)"
+	rep.Assumptions = []string{"the entry vector is random (math/rand/v2): oracles are independent of graph shape", "product quantiser with trigger threshold 3 (HTTP minimum 1000), 2 sub-vectors x 2 centroids; centroids and centroid ids read back from the bucket and checked for consistency", "runtime.NumCPU()-1 = 1 insert worker (CPU affinity 2)"}
 	p := pool.New(pool.Options{CPUsPerWorker: 2, JobTimeout: 60 * time.Second})
 	if cfg.Replay != "" {
 		var r seqx.Replay
@@ -109,15 +109,17 @@ func master(cfg *harness.Config, rep *harness.Report) {
 	none := quant{"none", nil}
 	fixed := quant{"binfixed", &models.Quantizer{Type: models.QuantizerBinary, Binary: &models.BinaryQuantizerParamaters{Threshold: &thr, DistanceMetric: models.DistanceHamming}}}
 	learned := quant{"binlearned", &models.Quantizer{Type: models.QuantizerBinary, Binary: &models.BinaryQuantizerParamaters{TriggerThreshold: 3, DistanceMetric: models.DistanceHamming}}}
+	// trigger threshold 3 instead of the HTTP layer's minimum of 1000: same code path, training reachable within the bound
+	product := quant{"product", &models.Quantizer{Type: models.QuantizerProduct, Product: &models.ProductQuantizerParameters{NumCentroids: 2, NumSubVectors: 2, TriggerThreshold: 3}}}
 	type combo struct {
 		metric string
 		q      quant
 	}
-	combos := []combo{{models.DistanceEuclidean, none}, {models.DistanceHamming, none}, {models.DistanceCosine, learned}, {models.DistanceDot, fixed}, {models.DistanceHaversine, none}}
+	combos := []combo{{models.DistanceEuclidean, product}, {models.DistanceEuclidean, none}, {models.DistanceHamming, none}, {models.DistanceCosine, learned}, {models.DistanceDot, fixed}, {models.DistanceHaversine, none}}
 	depth := 3
 	if !cfg.Quick() {
 		depth = 4
-		combos = append(combos, combo{models.DistanceEuclidean, learned}, combo{models.DistanceCosine, none}, combo{models.DistanceDot, none}, combo{models.DistanceJaccard, none}, combo{models.DistanceEuclidean, fixed})
+		combos = append(combos, combo{models.DistanceEuclidean, learned}, combo{models.DistanceCosine, none}, combo{models.DistanceDot, none}, combo{models.DistanceJaccard, none}, combo{models.DistanceEuclidean, fixed}, combo{models.DistanceDot, product}, combo{models.DistanceCosine, product})
 	}
 	alpha := []string{"ins1", "ins2,3", "ins4,5,6(5 without vector)", "ins7(dup of 1)", "upd1(move)", "upd2,3(move both)", "upd1(remove vector)", "upd1,5(add vector)", "del1", "del2,3", "ins1(again, elsewhere)"}
 	var specs []seqx.Spec
